@@ -1,11 +1,18 @@
 From Coq Require Import List ZArith Bool.
-From LTV.C13 Require Import Model Proofs.
+From LTV.C13 Require Import ParamsGen Model Proofs.
 Import ListNotations.
 Open Scope Z_scope.
 
 Theorem params_ok_now : Proofs.params_ok = true.
 Proof. exact Proofs.params_ok_now. Qed.
 Print Assumptions params_ok_now.
+
+Theorem event_codes_bep15 :
+  ParamsGen.Params.trk_udp_event_raw = 1 ->
+  ParamsGen.Params.trk_event_none = wire_event EvNone /\ ParamsGen.Params.trk_event_completed = wire_event EvCompleted /\
+  ParamsGen.Params.trk_event_started = wire_event EvStarted /\ ParamsGen.Params.trk_event_stopped = wire_event EvStopped.
+Proof. exact Proofs.event_codes_bep15. Qed.
+Print Assumptions event_codes_bep15.
 
 Theorem backoff_table :
   map backoff [1; 2; 3; 4; 5; 6; 7; 8; 9; 100] = [5; 10; 20; 40; 80; 160; 300; 300; 300; 300].
